@@ -3,6 +3,8 @@
 import parglare
 from parglare import REDUCE, SHIFT
 
+import functools
+
 from pgverif import glrobs, pgx
 from pgverif.mon.cover import Cover
 from pgverif.props.c06 import OPS, climb, gen_expr, make_table  # noqa: F401
@@ -44,6 +46,7 @@ def required(tier):
         "completeness.shifts_checked": 1000,
         "cover._call_dynamic_filter": 8,
         "grammars.dynamic_empty_production": 50,
+        "grammars.with_layout_rule": 50,
     }
 
 
@@ -82,7 +85,18 @@ class Filter:
         return r
 
 
-def grammar_text(rng, table, dynp, dynt, static, dynq=False, skip=None):
+LAYOUT_RULES = "LAYOUT: LayoutItem | LAYOUT LayoutItem | EMPTY;\nLayoutItem: WS | Comment;\n"
+LAYOUT_TERMS = "\nWS: /\\s+/;\nComment: /\\/\\*.*?\\*\\//;"
+LAYOUT_FILL = ["", "", " ", "/*c*/", " /* + n */ ", "\n"]
+
+
+def strip_layout(x):
+    import re
+
+    return re.sub(r"/\*.*?\*/|\s+", "", x)
+
+
+def grammar_text(rng, table, dynp, dynt, static, dynq=False, skip=None, layout=False):
     alts = []
     for i, o in enumerate(table):
         if i == skip:
@@ -98,6 +112,9 @@ def grammar_text(rng, table, dynp, dynt, static, dynq=False, skip=None):
     # an optional suffix whose empty alternative may be marked dynamic: reductions of empty
     # dynamic productions must reach the filter too, with no sub-results
     q = 'Q: "?" | EMPTY%s;' % (" {dynamic}" if dynq else "")
+    if layout:
+        # a LAYOUT rule: the nested layout parser must not talk to the user's filter
+        return "E: " + " | ".join(alts) + ";\n" + q + "\n" + LAYOUT_RULES + "terminals\n" + "\n".join(terms) + LAYOUT_TERMS
     return "E: " + " | ".join(alts) + ";\n" + q + "\nterminals\n" + "\n".join(terms)
 
 
@@ -124,10 +141,17 @@ def one_table(ctx):
     dynp = {o: rng.random() < 0.6 for o in ops}
     dynt = {o: rng.random() < 0.5 for o in ops}
     exprs = []
+    layout = rng.random() < 0.3
+    if layout:
+        ctx.count("grammars.with_layout_rule")
+    grammar_text = functools.partial(globals()["grammar_text"], layout=layout)
     for _ in range(12 if ctx.tier == "quick" else 25):
         toks = gen_expr(rng, ops, rng.choice([2, 3, 3]))
         if len(toks) <= 11:
-            exprs.append("".join(toks))
+            if layout:
+                exprs.append("".join(rng.choice(LAYOUT_FILL) + t for t in toks) + rng.choice(LAYOUT_FILL))
+            else:
+                exprs.append("".join(toks))
     dynq = rng.random() < 0.5
     if dynq:
         ctx.count("grammars.dynamic_empty_production")
@@ -279,7 +303,7 @@ def one_table(ctx):
         ctx.violation("dynamic-grammar-does-not-construct:" + type(e).__name__, {"grammar": text}, "all conflicts are marked dynamic but construction failed: %s" % str(e)[:200])
         return
     for x in exprs:
-        toks = list(x)
+        toks = list(strip_layout(x))
         want = climb(toks, table)
         case = {"grammar": text, "filter": "precedence", "table": {k: list(v) for k, v in table.items()}, "parser": "LR", "expr": x}
         del f4.log[:]
